@@ -88,7 +88,25 @@ func clMergeHeapReset(c *Ctx) {
 				resets = append(resets, st)
 			}
 		}
-		if len(appends) == 0 && len(appendCalls) == 0 {
+		// insertions through the heap interface: heap.Push keeps the heap order, the slice's own
+		// Push method only appends
+		var orderedPush, rawPush []ssa.Instruction
+		for _, in := range fi.Instrs {
+			cc := callOf(in)
+			if cc == nil || cc.StaticCallee() == nil || len(cc.Args) == 0 {
+				continue
+			}
+			if f, _ := addrField(cc.Args[0]); f != fH {
+				continue
+			}
+			switch {
+			case cc.StaticCallee().String() == "container/heap.Push":
+				orderedPush = append(orderedPush, in)
+			case cc.StaticCallee().Name() == "Push" && cc.StaticCallee().Package() == fn.Package():
+				rawPush = append(rawPush, in)
+			}
+		}
+		if len(appends) == 0 && len(appendCalls) == 0 && len(orderedPush) == 0 && len(rawPush) == 0 {
 			continue
 		}
 		n++
@@ -99,6 +117,9 @@ func clMergeHeapReset(c *Ctx) {
 			apps = append(apps, a)
 		}
 		apps = append(apps, appendCalls...)
+		apps = append(apps, rawPush...)
+		needInit := len(apps) > 0
+		apps = append(apps, orderedPush...)
 		firstApp = apps[0]
 		for _, r := range resets {
 			all := true
@@ -142,6 +163,19 @@ func clMergeHeapReset(c *Ctx) {
 			if hinit == nil || fi.Reaches(hinit, a) {
 				okInit = false
 			}
+		}
+		if !needInit {
+			// every cursor entered through heap.Push: the order holds by construction; Next still takes the smallest
+			okInit = nx != nil
+			for _, a := range apps {
+				if nx == nil || fi.Reaches(nx, a) {
+					okInit = false
+				}
+			}
+		}
+		for _, a := range append(append([]ssa.Instruction{}, rawPush...), orderedPush...) {
+			valid := p.Func("skiplist", "Iterator", "Valid")
+			c.Check(fi.guardedByCall(a, true, valid), fn, a, "a cursor enters the heap only if it is valid", "an exhausted cursor (standing on the tail sentinel) is pushed")
 		}
 		c.Check(okInit, fn, hinit, "heap is initialised after all cursors were collected, then the smallest is taken", "the heap property is not established before the first element is popped: the first item is not the smallest")
 		// every input iterator is positioned and pushed iff valid
